@@ -157,6 +157,10 @@ def run(ctx):
 
     # ---------------------------------------------------------------- C15.3
     pb = P.body(PIPE + 'push_bytes')
+    # an arm of the invalid-UTF-8 handling extracted into a private method of the pipe is spliced back in
+    from ..inline import inline_calls, contains
+    _w15 = contains(rx_calls=r'OpenResponsesSsePipe::push_sse_str$')
+    pb = inline_calls(P, pb, lambda body, callee: 'OpenResponsesSsePipe' in callee and not re.search(r'::(push_sse_str|push_bytes|finish|emit_transport_error|new)$', callee) and _w15(body, callee), depth=1, note=ctx.note)
     ctx.touch(pb)
     subs = []
     for s in pb.calls(r'OpenResponsesSsePipe::push_sse_str$'):
@@ -271,3 +275,55 @@ def run(ctx):
     ctx.ob('C15.6', ps, 'every-chunk-reaches-decoder', verbatim and every,
            'SseDecoder::push %s' % ('receives every chunk, unmodified' if verbatim and every else
                                     ('can be SKIPPED (a return is reachable without it): a blank / padding chunk that carries a line end is lost, events merge or are never dispatched' if not every else 'receives a rewritten chunk')), line=dp.line)
+
+    # ---------------------------------------------------------------- C15.7
+    ctx.rule('C15.7', 'a transport-error frame ends the pipe: emit_transport_error stamps its frame from the session seq directly, behind the back of the frame mapper (whose frames are numbered mapper count + seq_offset) — so no mapped emission (push_bytes / push_sse_str / finish) may be reachable after it, neither in the users of the pipe nor inside its own methods (private helpers spliced in). A trace frame emitted between two decoded events makes the next decoded frame repeat its seq.')
+    ERRF = r'OpenResponsesSsePipe(::<.a>)?::emit_transport_error$'
+    MAPPED = r'OpenResponsesSsePipe(::<.a>)?::(push_bytes|push_sse_str|finish)$'
+    bodies7 = []
+    for p_, g in sorted(P.fns.items()):
+        if g.crate != 'ripd' or not g.calls(ERRF):
+            continue
+        if 'OpenResponsesSsePipe' in p_ and re.search(r'::emit_transport_error', p_):
+            continue
+        bodies7.append(g)
+    for meth in ('push_bytes', 'push_sse_str', 'finish'):
+        mb = P.body(PIPE + meth, required=False)
+        if mb is None:
+            continue
+        mb = inline_calls(P, mb, lambda body, callee: 'OpenResponsesSsePipe' in callee and not re.search(r'::(push_sse_str|push_bytes|finish|emit_transport_error|new)$', callee), depth=1)
+        if mb.calls(ERRF) and mb not in bodies7:
+            bodies7.append(mb)
+    n7 = 0
+    for g in bodies7:
+        es = g.calls(ERRF)
+        ms = g.calls(MAPPED)
+        for e_ in es:
+            n7 += 1
+            late = [m_ for m_ in ms if m_.bb != e_.bb and g.can_reach(e_.bb, m_.bb)]
+            ctx.ob('C15.7', g, 'error-frame-is-last', not late, 'after emit_transport_error %s' % ('no mapped emission is reachable' if not late else
+                   '%s (line %d) is still reachable: the mapper does not know the seq the error frame used, the next decoded frame repeats it' % (late[0].name, late[0].line)), line=e_.line)
+    ctx.floor('C15.7', 'emit_transport_error call sites', n7, 4)
+
+    # ---------------------------------------------------------------- C15.8
+    ctx.rule('C15.8', 'what counts as a text delta is decided by the payload alone: output_text_delta (helpers of the crate spliced in) reads no field of the ParsedEvent other than `data` — in particular not the SSE `event:` name, which providers and proxies set freely (`event: message`) and which is not part of the payload the frames carry.')
+    otd = P.fn('rip_provider_openresponses::output_text_delta')
+    otd = inline_calls(P, otd, lambda body, callee: callee.startswith('rip_provider_openresponses::') and len(body.blocks) < 200, depth=2, note=ctx.note)
+    ctx.touch(otd)
+    read8 = set()
+    for bi in otd.reachable():
+        bl = otd.blocks[bi]
+        places = []
+        for st in bl['s']:
+            rv = st.get('rv')
+            if rv:
+                places += [op_place(o) for o in rv.get('a', [])] + ([rv['pl']] if 'pl' in rv else [])
+        if bl['t']['k'] == 'call':
+            places += [op_place(o) for o in bl['t']['a']]
+        for pl in places:
+            if pl:
+                for pp in pl.get('p', []):
+                    if isinstance(pp, dict) and pp.get('o', '').endswith('::ParsedEvent'):
+                        read8.add(pp['n'])
+    ctx.ob('C15.8', otd, 'delta-decided-by-payload', bool(read8) and read8 <= {'data'}, 'output_text_delta reads ParsedEvent.%s' % sorted(read8) + ('' if read8 <= {'data'} else
+           ': a delta sent under another SSE event name is no longer recognised, the derived text is not the concatenation of the deltas'), line=otd.line)
